@@ -24,6 +24,9 @@ def spec_text(t, v):
     return "echo %s version %d\n" % (t, v)
 
 
+SUBMIT["local"] = CANCEL["local"] = QUERY["local"] = None
+
+
 class Driver:
     def __init__(self, scn, variant):
         self.scn = scn
@@ -45,11 +48,23 @@ class Driver:
         self.order = self.T[:]
         self.rng.shuffle(self.order)
         self.sub = variant % 11 == 0  # run gwf in a fresh interpreter for a sample of traces
+        self.pool = None       # the real local worker pool (local back end only)
+        self.epoch_base = 0    # number of jobs accepted by earlier pools (ids restart with every pool)
+        self.seen_enq = 0
+        self.seen_cancel = 0
+        self.raw2spec = {}     # pool task id -> specification job id (latest use of that raw id)
         self.spec_jobs = []  # target of the specification's job n (from the generated history)
 
     # -- concretisation ----------------------------------------------------
     def names(self, sel):
         return [self.perm[t] for t in sel]
+
+    def text(self, t, v):
+        if self.backend == "local":
+            from .localrun import job_script
+
+            return job_script(self.sb.ctl, self.perm[t], "%s version %d" % (t, v))
+        return spec_text(t, v)
 
     def write_workflow(self):
         lines = ["from gwf import Workflow", "gwf = Workflow()"]
@@ -58,7 +73,7 @@ class Driver:
             lines.append(
                 "gwf.target(%r, inputs=%r, outputs=%r%s) << %r"
                 % (self.perm[t], sorted(self.w["in"][t]), sorted(self.w["out"][t]),
-                   ", protect=%r" % prot if prot else "", spec_text(t, self.specv[t]))
+                   ", protect=%r" % prot if prot else "", self.text(t, self.specv[t]))
             )
         self.sb.write("workflow.py", "\n".join(lines) + "\n")
 
@@ -68,9 +83,14 @@ class Driver:
             conf["use_spec_hashes"] = True
         if self.backend == "slurm_noacct":
             conf["backend.slurm.accounting_enabled"] = False
+        if self.backend == "local" and self.pool is not None:
+            conf["backend.local.port"] = self.pool.port
+            conf["backend.local.host"] = "127.0.0.1"
         self.sb.write(".gwfconf.json", json.dumps(conf))
 
     def render(self):
+        if self.backend == "local":
+            return
         sq, sa, qs, bj = [("77", "PD"), ("78", "R")], [("77", "PENDING"), ("78", "RUNNING")], [("77", "qw")], [("77", "PEND")]
         for j in self.jobs:
             if j["gone"]:
@@ -94,6 +114,54 @@ class Driver:
         except ValueError:
             return -7
 
+    # -- the local back end: ids are the pool's task ids, which restart with every pool -------------
+    def start_pool(self):
+        from .localrun import Pool
+
+        self.pool = Pool(self.sb.proj, self.sb.ctl)
+        self.seen_enq = self.seen_cancel = 0
+        self.trk_epoch = {}     # target -> normalised id its tracked raw value stands for
+        self.write_conf()
+
+    def stop_pool(self):
+        if self.pool is not None:
+            self.pool.stop()
+            self.epoch_base += len(self.pool.enqueued)
+            self.pool = None
+
+    def local_after_trk(self, raw):
+        """Tracked raw ids -> specification ids: a value written in the current pool epoch is
+        epoch_base + raw + 1; an older value keeps the id it stood for when it was written."""
+        out = {t: 0 for t in self.T}
+        if not isinstance(raw, dict):
+            return out
+        for n, j in raw.items():
+            t = self.inv.get(n)
+            if t not in out:
+                continue
+            known = self.local_trk.get(t)
+            if known is not None and known[0] == j:
+                out[t] = known[1]
+            else:
+                out[t] = -7
+        return out
+
+    def local_sync(self):
+        """Turn what the pool did by itself since the last look into events: tasks that started, and
+        held tasks that ended without running because a prerequisite did not complete."""
+        states = self.pool.settle()
+        for j in self.jobs:
+            if j["gone"] or j.get("epoch") != self.epoch_base:
+                continue
+            st = states.get(j["raw"])
+            if j["st"] == "PD" and st in ("RUNNING", "COMPLETED") and not j.get("started"):
+                j["started"] = True
+                j["st"] = "R"
+                self.events.append({"act": "JobStart", "t": j["tgt"], "j": j["id"]})
+            elif j["st"] == "PD" and st in ("FAILED", "CANCELLED", "KILLED"):
+                j["st"] = "FAIL" if st in ("FAILED", "KILLED") else "CA"
+                self.events.append({"act": "JobInherit", "t": j["tgt"], "j": j["id"], "st": j["st"]})
+
     def after(self):
         sb = self.sb
         trk_raw = sb.read_json(".gwf/%s-backend-tracked.json" % self.gwf_backend)
@@ -101,7 +169,9 @@ class Driver:
         trk_ok = trk_raw != "UNREADABLE"
         hsh_ok = hsh_raw != "UNREADABLE"
         trk = {t: 0 for t in self.T}
-        if isinstance(trk_raw, dict):
+        if self.backend == "local":
+            trk = self.local_after_trk(trk_raw)
+        elif isinstance(trk_raw, dict):
             for n, j in trk_raw.items():
                 if n in self.inv and self.inv[n] in trk:
                     trk[self.inv[n]] = self.norm_id(j)
@@ -114,7 +184,7 @@ class Driver:
                 if t in hsh:
                     hsh[t] = -2
                     for v in range(self.specv[t] + 1):
-                        if hash_spec(spec_text(t, v)) == h:
+                        if hash_spec(self.text(t, v)) == h:
                             hsh[t] = v
         fs = {}
         for f in self.files:
@@ -147,6 +217,10 @@ class Driver:
         sb = self.sb
         sb.reset(first_id=FIRST_ID)
         self.use_hash = bool(h["useHash"])
+        self.local_trk = {}
+        if self.backend == "local":
+            os.environ["GWFV_POOL_MARK"] = "pool-%d-%d" % (os.getpid(), self.variant)
+            self.start_pool()
         self.write_workflow()
         self.write_conf()
         os.makedirs(sb.path(".gwf/logs"), exist_ok=True)
@@ -186,6 +260,8 @@ class Driver:
         return r, calls, obs
 
     def step_status(self, h):
+        if self.backend == "local":
+            self.local_sync()
         r, calls, obs = self.observe_cmd(["status"] + self.names(h["sel"]))
         table, badl = parse_status_table(r.stdout)
         obs.update(act="Status", sel=h["sel"], table={self.inv.get(n, n): s for n, s in table.items()})
@@ -201,6 +277,8 @@ class Driver:
     def step_run(self, h, rest):
         """h = RunBegin entry; rest = following history entries up to and including the run's terminator."""
         sb = self.sb
+        if self.backend == "local":
+            return self.step_run_local(h)
         term = rest[-1]
         nsub = sum(1 for x in rest if x["act"] == "RunSubmit")
         cmd = SUBMIT[self.backend]
@@ -244,6 +322,52 @@ class Driver:
             obs.update(act="RunEnd")
         self.events.append(obs)
         self.render()
+
+    def step_run_local(self, h):
+        self.local_sync()
+        self.events.append({"act": "RunBegin", "sel": h["sel"]})
+        r, calls, obs = self.observe_cmd(["run"] + self.names(h["sel"]), sub=False)
+        new = self.pool.enqueued[self.seen_enq:]
+        self.seen_enq = len(self.pool.enqueued)
+        for tid, name, deps in new:
+            t = self.inv.get(name, str(name))
+            jid = len(self.jobs) + 1
+            ok = isinstance(deps, list) and all(isinstance(d, int) for d in deps)
+            # prerequisite ids as the pool received them, read through the ids handed out so far
+            hold = [self.raw2spec.get(d, -7) for d in deps] if ok else [-7]
+            self.raw2spec[tid] = jid
+            self.jobs.append({"id": jid, "raw": tid, "epoch": self.epoch_base, "tgt": t, "st": "PD",
+                              "hold": [x for x in hold if 0 < x <= len(self.jobs)], "gone": False})
+            self.local_trk[t] = (tid, jid)
+            self.events.append({"act": "RunSubmit", "t": t, "id": jid, "hold": hold, "kind": "local" if hold else "none", "bad": ""})
+        obs["after"] = self.after()[0]   # tracked ids are interpreted with the submissions just recorded
+        obs.update(act="RunEnd")
+        self.events.append(obs)
+        self.local_sync()
+
+    def step_pool_restart(self, h):
+        self.stop_pool()
+        for j in self.jobs:
+            if j["st"] in ("PD", "R"):
+                j["st"] = "CA"
+            j["gone"] = True
+        self.kill_marked()
+        self.start_pool()
+        self.events.append({"act": "PoolRestart"})
+
+    def kill_marked(self):
+        mark = os.environ.get("GWFV_POOL_MARK", "").encode()
+        if not mark:
+            return
+        import signal
+
+        for pid in os.listdir("/proc"):
+            if pid.isdigit() and int(pid) != os.getpid():
+                try:
+                    if mark in open("/proc/%s/environ" % pid, "rb").read():
+                        os.kill(int(pid), signal.SIGKILL)
+                except OSError:
+                    pass
 
     def step_queryfail(self, h):
         cmd = QUERY[self.backend]
@@ -365,6 +489,14 @@ class Driver:
         r, calls, obs = self.observe_cmd(args + self.names(h["sel"]) + nomatch, input=inp)
         sb.set_refuse([])
         reqs = []
+        if self.backend == "local":
+            self.pool.settle()
+            for tid in self.pool.cancels[self.seen_cancel:]:
+                jid = self.raw2spec.get(tid, -7) if isinstance(tid, int) else -7
+                reqs.append(jid)
+                if 1 <= jid <= len(self.jobs) and self.job(jid)["st"] in ("PD", "R") and not self.job(jid)["gone"]:
+                    self.job(jid)["st"] = "CA"
+            self.seen_cancel = len(self.pool.cancels)
         for c in calls:
             if c["cmd"] == CANCEL[self.backend]:
                 jid = self.norm_id(c["argv"][-1]) if c["argv"] else -7
@@ -375,6 +507,8 @@ class Driver:
         reported = [self.inv.get(n, n) for n in re.findall(r"Target (\S+) could not be cancelled", out)]
         obs.update(act="Cancel", sel=h["sel"], refused=refused, reqs=reqs, reported=reported, declined=declined)
         self.events.append(obs)
+        if self.backend == "local":
+            self.local_sync()
         self.render()
 
     def step_env(self, h):
@@ -409,7 +543,33 @@ class Driver:
                 return j
         return None
 
+    def step_sched_local(self, h):
+        a = h["act"]
+        if a != "JobEnd":
+            return  # starts, skipped tasks and purges are what the real pool does by itself
+        self.local_sync()
+        j = self.real_of(h["j"])
+        if j is None or j["st"] != "R" or j["gone"]:
+            self.events.append(dict(h, j=0, tie=bool(h.get("tie"))))
+            return
+        if h["ok"]:
+            self.clock += 1
+            when = self.clock
+            if h.get("tie"):
+                ins = [x for x in (self.after()[0]["fs"][f] for f in self.w["in"][h["t"]]) if x >= 0]
+                when = max(ins) if ins else when
+            for f in self.w["out"][h["t"]]:
+                self.sb.set_file(f, when, content="made by job %d\n" % j["id"])
+        self.pool.release(self.perm[h["t"]], 0 if h["ok"] else 1)
+        raw = j["raw"]
+        self.pool.settle(want=lambda st: st.get(raw) in ("COMPLETED", "FAILED", "CANCELLED", "KILLED"))
+        j["st"] = "OK" if h["ok"] else "FAIL"
+        self.events.append({"act": "JobEnd", "t": h["t"], "j": j["id"], "ok": h["ok"], "tie": bool(h.get("tie"))})
+        self.local_sync()
+
     def step_sched(self, h):
+        if self.backend == "local":
+            return self.step_sched_local(h)
         a = h["act"]
         want = {"JobStart": ("PD",), "JobEnd": ("R",), "Purge": ("OK", "FAIL", "CA")}[a]
         j = self.real_of(h["j"])
@@ -486,8 +646,10 @@ class Driver:
                 self.step_cancel(h)
             elif a in ("EditSource", "DeleteOutput", "EditSpec", "SetUseHash"):
                 self.step_env(h)
-            elif a in ("JobStart", "JobEnd", "Purge"):
+            elif a in ("JobStart", "JobEnd", "Purge", "JobInherit"):
                 self.step_sched(h)
+            elif a == "PoolRestart":
+                self.step_pool_restart(h)
             else:
                 raise ValueError("unknown action %r" % a)
             i += 1
@@ -497,5 +659,10 @@ class Driver:
 def drive(item):
     rid, scn, variant = item
     d = Driver(scn, variant)
-    events = d.run()
+    try:
+        events = d.run()
+    finally:
+        if d.pool is not None:
+            d.stop_pool()
+            d.kill_marked()
     return {"id": rid, "backend": scn["backend"], "wf": scn["wf"], "variant": variant, "sub": d.sub, "events": events, "hist": scn["hist"]}
